@@ -37,8 +37,8 @@ CLAIMS = {
         "design": "DESIGN.md §4 C11",
     },
     "C18": {
-        "text": "Decides with CBMC's memory model (no double free, no use after free, no out-of-bounds, deallocation size == allocation size) that the FFI byte buffer round-trips, duplicates and releases correctly for every (length, capacity) shape in the bound and all byte contents.",
-        "note": "Buffer only (from_vec, from_string, to_vec, into_vec, duplicate, clone, redirectionio_api_buffer_drop) for capacities <= 4. Header maps, object handles, C strings and trusted proxies are outside the claim unless registered (DESIGN C18). Kani's allocator model is trusted.",
+        "text": "Decides with CBMC's memory model (no double free, no use after free, no out-of-bounds, deallocation size == allocation size) that the FFI byte buffer round-trips, duplicates and releases correctly for every (length, capacity) shape in the bound and all byte contents; that a NULL body filter hands back a distinct buffer with equal bytes which the caller can release next to its own; that every documented-NULL entry point returns its neutral value; and that a header handed to C yields exactly one releasable node.",
+        "note": "Buffer (from_vec, from_string, to_vec, into_vec, duplicate, clone, redirectionio_api_buffer_drop) for capacities <= 4; NULL-filter duplication; documented-NULL contracts of the action / body-filter entry points; a one-header list handed to C (one node, value string NULL iff it contains a NUL, caller releases node and strings once). Longer header lists read back from C (CStr/strlen), object handles of real actions / filters, requests, trusted proxies are outside the claim (DESIGN C18). Kani's allocator model is trusted.",
         "design": "DESIGN.md §4 C18",
     },
 }
